@@ -21,6 +21,14 @@ type CondAtom struct {
 // Atom normalises condition e with outcome branch.
 func Atom(info *types.Info, e ast.Expr, branch bool) CondAtom {
 	e = ast.Unparen(e)
+	// !c with outcome b is c with outcome !b (raw conditions; the interpreter strips negations itself)
+	for {
+		u, isNot := e.(*ast.UnaryExpr)
+		if !isNot || u.Op != token.NOT {
+			break
+		}
+		e, branch = ast.Unparen(u.X), !branch
+	}
 	if x, eq, ok := NilCheck(info, e); ok {
 		if eq == branch {
 			return CondAtom{Kind: "Nil", X: x}
@@ -46,6 +54,22 @@ func Atom(info *types.Info, e ast.Expr, branch bool) CondAtom {
 			}
 		}
 		x, y := b.X, b.Y
+		// canonical operand order: a constant goes to the right (400 > s is s < 400)
+		if _, xc := ConstVal(info, x); xc {
+			if _, yc := ConstVal(info, y); !yc {
+				x, y = y, x
+				switch op {
+				case token.LSS:
+					op = token.GTR
+				case token.GTR:
+					op = token.LSS
+				case token.LEQ:
+					op = token.GEQ
+				case token.GEQ:
+					op = token.LEQ
+				}
+			}
+		}
 		// len(x) against a constant
 		lenArg := func(z ast.Expr) ast.Expr {
 			if c, ok := ast.Unparen(z).(*ast.CallExpr); ok && Builtin(info, c) == "len" && len(c.Args) == 1 {
@@ -247,4 +271,48 @@ func VarFromCall(fi *FuncInfo, obj types.Object, pos token.Pos, pkg, name string
 	}
 	c, ok := ast.Unparen(last).(*ast.CallExpr)
 	return ok && CallIs(info, c, pkg, name) && lastIdx == resultIdx
+}
+
+// NNF pushes the outcome through !, && and || and returns the condition "e has outcome branch" in
+// negation normal form: op is "atom" (one leaf), "and" or "or" (all leaves joined by that one
+// connective, nested same-connective groups flattened) or "mixed" (both connectives occur; the
+// leaves are still returned, but their combination is not described). It makes a rule independent
+// of how a compound guard is spelled: a && b false, !a || !b true and !(a && b) true all yield
+// ("or", [¬a, ¬b]).
+func NNF(info *types.Info, e ast.Expr, branch bool) (op string, leaves []CondAtom) {
+	var walk func(e ast.Expr, branch bool) (string, []CondAtom)
+	walk = func(e ast.Expr, branch bool) (string, []CondAtom) {
+		e = ast.Unparen(e)
+		if u, ok := e.(*ast.UnaryExpr); ok && u.Op == token.NOT {
+			return walk(u.X, !branch)
+		}
+		if b, ok := e.(*ast.BinaryExpr); ok && (b.Op == token.LAND || b.Op == token.LOR) {
+			mine := "and"
+			if (b.Op == token.LAND) != branch {
+				mine = "or"
+			}
+			var out []CondAtom
+			for _, side := range []ast.Expr{b.X, b.Y} {
+				o, ls := walk(side, branch)
+				if o != "atom" && o != mine {
+					mine = "mixed"
+				}
+				out = append(out, ls...)
+			}
+			return mine, out
+		}
+		return "atom", []CondAtom{Atom(info, e, branch)}
+	}
+	return walk(e, branch)
+}
+
+// AtomNNF is NNF applied to an atom delivered by the interpreter (whose X may still be a compound).
+func AtomNNF(info *types.Info, a CondAtom) (string, []CondAtom) {
+	switch a.Kind {
+	case "True":
+		return NNF(info, a.X, true)
+	case "False":
+		return NNF(info, a.X, false)
+	}
+	return "atom", []CondAtom{a}
 }
